@@ -1,0 +1,16 @@
+//go:build verif
+
+// The fixed exponentiation by the seed of the curve family (comment-only; installed by /verif/gcv gen-contracts). It
+// is an ASSUMED component contract of the final exponentiation (C05: "Expt raises to the seed"); here it is proved at
+// the module layer for the curves whose chain stays within the interpreted operations: with Mul the sum, the
+// (cyclotomic, compressed) squarings the double and Karabina's decompression the identity, the addition chain yields
+// exactly 9586122913090633729 times the operand, for both aliasings of receiver and operand.
+
+package fptower
+
+//@ func E12.Expt
+//@ layer module E12
+//@ ensures[value] *z == 9586122913090633729 * old(*x)
+//@ ensures[result] result == z
+//@ modifies z
+//@ end
